@@ -496,3 +496,22 @@ package document
 //@   invariant forall r int, c int, k int :: 0 <= r && r < len(t.Rows) && 0 <= c && c < len(t.Rows[r].Cells) && (r != row || c != col) && 0 <= k && k < len(t.Rows[r].Cells[c].Paragraphs) ==> t.Rows[r].Cells[c].Paragraphs[k] == old(t.Rows[r].Cells[c].Paragraphs[k])
 //@   invariant cellParasOwn(t)
 //@   decreases len(config.Items) - #i
+
+// CreateCustomTableStyle = ApplyTableStyle + SetTableBorders + SetTableShading; it cannot fail (both configurations are
+// nil-checked before they are handed on). It writes table properties only, so rows, cells and paragraphs keep their owners.
+//@ func (*Table).CreateCustomTableStyle
+//@ props C09
+//@ requires t != nil
+//@ modifies Table.Properties, TableProperties.*, TableLook.*
+//@ ensures err == nil
+//@ ensures t.Properties != nil
+//@ ensures shadingConfig != nil ==> t.Properties.Shd != nil && fresh(t.Properties.Shd) && t.Properties.Shd.Fill == shadingConfig.BackgroundColor
+//@ ensures borderConfig != nil && shadingConfig == nil ==> t.Properties.TableBorders != nil && fresh(t.Properties.TableBorders)
+//@ ensures old(rowsOwn(t)) ==> rowsOwn(t)
+//@ ensures old(cellPropsOwn(t)) ==> cellPropsOwn(t)
+//@ ensures old(rowPropsOwn(t)) ==> rowPropsOwn(t)
+//@ ensures old(cellParasOwn(t)) ==> cellParasOwn(t)
+//@ ensures old(paraRunsOwn(t)) ==> paraRunsOwn(t)
+
+// toRomanUpper / toRomanLower (helpers of AddCellList) are not under contract: at AddCellList's call sites they are
+// abstracted by their inferred footprint (they write no heap); their own index safety is not proved here.
